@@ -546,7 +546,7 @@ func (x *Exec) sliceOp(fr *Frame, st *State, w *ssa.Slice) Value {
 			x.safety(st, "bounds", And(Le(hi, mx), Le(mx, a.Cap)), w.Pos())
 		}
 		x.safety(st, "bounds", And(Ge(lo, TZero), Le(lo, hi), Le(hi, a.Cap)), w.Pos())
-		return &SliceV{Ptr: a.Ptr, Off: Add(a.Off, lo), Len: Sub(hi, lo), Cap: Sub(capEnd, lo), Elem: a.Elem}
+		return &SliceV{Ptr: a.Ptr, Off: SidxOff(a.Off, lo), Len: Sub(hi, lo), Cap: Sub(capEnd, lo), Elem: a.Elem}
 	case *PtrV: // pointer to array: materialise as a backing array
 		at := a.Loc.Typ.Underlying().(*types.Array)
 		if a.Loc.Kind != LCell || len(a.Loc.Path) != 0 {
